@@ -541,7 +541,10 @@ theorem keys_differ_across_connections (ideal : Nat → Bool) (evs : List ConnTa
   exact ⟨by omega, by omega⟩
 
 open Dos.ConnSym in
-/-- **5b. delivered ⇒ sent by the remote endpoint ON THAT CONNECTION**, whatever is replayed from wherever: in
+/-- **5b. delivered ⇒ sent by the remote endpoint ON THAT CONNECTION**, whatever is replayed from wherever — PARTIAL
+in the sense of theorem 1: `ConnSym.AdvCan` is the man in the middle who cannot make a valid GCM tag (ideal AEAD); the
+forging adversary of `DerivableGCM` (known finding gcm-nonce-reuse-forgery) has not been carried over to the
+across-connections model, where it would weaken this statement to payload authenticity in the same way: in
 every valid history, every message delivered at an end of connection `c` is the delivery of a frame that the OTHER
 end of the SAME connection packed. -/
 theorem delivered_on_its_connection (ideal : Nat → Bool) (ca dr : Bool) (evs : List SEv)
